@@ -304,13 +304,15 @@ type cmdSpec struct {
 	pubsub bool
 }
 
+// every command with the slot types of a long well-formed request (options repeated so that every prefix -
+// "an option pair followed by a keyword without its value" included - is enumerated) and the valid token per slot
 var commands = []cmdSpec{
-	{"dm.put", []slot{sD, sK, sV, sW, sN, sW}, false}, {"dm.get", []slot{sD, sK, sW}, false}, {"dm.del", []slot{sD, sK, sK}, false},
+	{"dm.put", []slot{sD, sK, sV, sW, sN, sW, sN, sW, sW}, false}, {"dm.get", []slot{sD, sK, sW}, false}, {"dm.del", []slot{sD, sK, sK}, false},
 	{"dm.delentry", []slot{sD, sK, sW}, false}, {"dm.getentry", []slot{sD, sK, sW}, false}, {"dm.putentry", []slot{sD, sK, sX}, false},
 	{"dm.expire", []slot{sD, sK, sN}, false}, {"dm.pexpire", []slot{sD, sK, sN}, false}, {"dm.destroy", []slot{sD, sW}, false},
-	{"dm.scan", []slot{sP, sD, sN, sW, sN, sW}, false}, {"dm.incr", []slot{sD, sK, sN}, false}, {"dm.decr", []slot{sD, sK, sN}, false},
+	{"dm.scan", []slot{sP, sD, sN, sW, sN, sW, sN, sW, sW}, false}, {"dm.incr", []slot{sD, sK, sN}, false}, {"dm.decr", []slot{sD, sK, sN}, false},
 	{"dm.getput", []slot{sD, sK, sV, sW}, false}, {"dm.incrbyfloat", []slot{sD, sK, sN}, false},
-	{"dm.lock", []slot{sD, sK, sN, sW, sN}, false}, {"dm.unlock", []slot{sD, sK, sT}, false},
+	{"dm.lock", []slot{sD, sK, sN, sW, sN, sW, sN, sW}, false}, {"dm.unlock", []slot{sD, sK, sT}, false},
 	{"dm.locklease", []slot{sD, sK, sT, sN}, false}, {"dm.plocklease", []slot{sD, sK, sT, sN}, false},
 	{"publish", []slot{sK, sV}, false}, {"publish.internal", []slot{sK, sV}, false},
 	{"subscribe", []slot{sK, sK}, true}, {"psubscribe", []slot{sK, sK}, true},
@@ -318,6 +320,29 @@ var commands = []cmdSpec{
 	{"internal.node.movefragment", []slot{sX}, false}, {"internal.node.updaterouting", []slot{sX, sN}, false},
 	{"internal.node.lengthofpart", []slot{sP, sW}, false},
 	{"ping", []slot{sV, sV}, false}, {"stats", []slot{sW, sW}, false}, {"cluster.routingtable", []slot{sW}, false}, {"cluster.members", []slot{sW}, false},
+}
+
+// validWord is the well-formed option keyword for the i-th option slot of a command.
+func validWord(cmd string, nth int) string {
+	switch strings.ToLower(cmd) {
+	case "dm.put":
+		return []string{"EX", "PX", "NX", "XX"}[nth%4]
+	case "dm.lock":
+		return []string{"EX", "PX", "EX"}[nth%3]
+	case "dm.scan":
+		return []string{"MATCH", "COUNT", "RC", "RC"}[nth%4]
+	case "pubsub":
+		return "numsub"
+	case "dm.get", "dm.getput":
+		return "RW"
+	case "dm.delentry", "dm.getentry", "internal.node.lengthofpart":
+		return "RC"
+	case "dm.destroy":
+		return "LOCAL"
+	case "stats":
+		return "CR"
+	}
+	return "FOO"
 }
 
 func fragmentPack(allocated uint64, partID uint64, name string) []byte {
@@ -414,8 +439,16 @@ func vectorsFor(c cmdSpec, maxAnom int, uniq *int) []vector {
 	n := len(c.slots)
 	for l := 0; l <= n; l++ {
 		base := make([]string, l)
+		nw := 0
 		for i := 0; i < l; i++ {
 			base[i] = valid(c.slots[i])
+			if c.slots[i] == sW {
+				base[i] = validWord(c.name, nw)
+				nw++
+			}
+			if c.slots[i] == sN && i > 0 && c.slots[i-1] == sW {
+				base[i] = "10" // an option's value
+			}
 		}
 		var rec func(pos, anomalies int, cur []string)
 		rec = func(pos, anomalies int, cur []string) {
